@@ -248,6 +248,9 @@ def defaultLevelStreams (l : Nat) : Bool × OptFn := (defaultStream l, some (def
 /-- `out << p₁ << p₂ …` (`temporary_output`): the texts are appended to one `ostringstream` -/
 def outParts (parts : List String) : String := parts.foldl (· ++ ·) ""
 
+/-- `temporary_output::operator=(temporary_output &&)`: the target's text is replaced by the source's -/
+def outAssign (_target source : List String) : String := outParts source
+
 /-- `fcppt::log::level_stream`: the sink it writes to (an index into the harness' sinks) and its formatter -/
 structure LevelStream where
   dest : Nat
